@@ -31,6 +31,9 @@ pub fn bpm(last_hit_object: Option<&HitObject>, timing_points: &[TimingPoint]) -
         bpm_points.add(curr.beat_len, curr.time, last_time);
     }
 
+    #[cfg(rosu_pp_verif)]
+    let bpm_points = crate::verif::BpmSeam::wrap(bpm_points.map);
+
     let most_common_beat_len = bpm_points
         .map
         .into_iter()
